@@ -44,12 +44,29 @@ type sreq struct {
 	Chaos  bool   `json:"chaos,omitempty"`
 	EDNS   int    `json:"edns"`
 	ID     uint16 `json:"id"`
+	// The header bits that a response echoes: RD (set unless NoRD), CD, AD.
+	NoRD bool `json:"no_rd,omitempty"`
+	CD   bool `json:"cd,omitempty"`
+	AD   bool `json:"ad,omitempty"`
+	// Var, when not zero, stands in for the ID where the EDNS parameters of
+	// the request (cookie, client subnet, UDP size) are derived from it.
+	Var uint16 `json:"var,omitempty"`
+}
+
+// v is the number that the EDNS parameters of q are derived from.
+func (q sreq) v() uint16 {
+	if q.Var != 0 {
+		return q.Var
+	}
+
+	return q.ID
 }
 
 func (q sreq) msg() *dns.Msg {
 	m := &dns.Msg{}
 	m.SetQuestion(q.Name, q.Qtype)
 	m.Id = q.ID
+	m.RecursionDesired, m.CheckingDisabled, m.AuthenticatedData = !q.NoRD, q.CD, q.AD
 	if q.Chaos {
 		m.Question[0].Qclass = dns.ClassCHAOS
 	}
@@ -59,11 +76,11 @@ func (q sreq) msg() *dns.Msg {
 	case 2:
 		m.SetEdns0(4096, true)
 		opt := m.IsEdns0()
-		opt.Option = append(opt.Option, &dns.EDNS0_COOKIE{Code: dns.EDNS0COOKIE, Cookie: fmt.Sprintf("%016x", uint64(q.ID)*7919)})
+		opt.Option = append(opt.Option, &dns.EDNS0_COOKIE{Code: dns.EDNS0COOKIE, Cookie: fmt.Sprintf("%016x", uint64(q.v())*7919)})
 	case 3, 4:
 		// The client sends its own subnet (EDNS Client Subnet); no two
 		// requests of a round send the same one.
-		m.SetEdns0(uint16(1400+int(q.ID%7)*100), q.EDNS == 4)
+		m.SetEdns0(uint16(1400+int(q.v()%7)*100), q.EDNS == 4)
 		opt := m.IsEdns0()
 		opt.Option = append(opt.Option, q.ecs())
 	}
@@ -75,10 +92,10 @@ func (q sreq) msg() *dns.Msg {
 func (q sreq) ecs() *dns.EDNS0_SUBNET {
 	if q.EDNS%2 == 1 {
 		return &dns.EDNS0_SUBNET{Code: dns.EDNS0SUBNET, Family: 1, SourceNetmask: 24,
-			Address: net.IP{100, byte(64 + q.Client), byte(q.ID), 0}}
+			Address: net.IP{100, byte(64 + q.Client), byte(q.v()), 0}}
 	}
 	ip := net.ParseIP("2001:db8:aaaa::")
-	ip[6], ip[7] = byte(q.Client), byte(q.ID)
+	ip[6], ip[7] = byte(q.Client), byte(q.v())
 
 	return &dns.EDNS0_SUBNET{Code: dns.EDNS0SUBNET, Family: 2, SourceNetmask: 64, Address: ip}
 }
@@ -111,6 +128,50 @@ func checkECS(q sreq, resp *dns.Msg) (bad string) {
 	}
 
 	return ""
+}
+
+// checkEcho is the identity oracle for what a response echoes from its
+// request: the ID, the question exactly as it was asked (letter case included:
+// clients that randomise it drop a response with another spelling), the opcode
+// and the RD and CD bits.  It needs no other run to compare with.
+func checkEcho(q sreq, resp *dns.Msg) (bad string) {
+	var bs []string
+	if resp.Id != q.ID {
+		bs = append(bs, fmt.Sprintf("id %d, of the request: %d", resp.Id, q.ID))
+	}
+	qclass := uint16(dns.ClassINET)
+	if q.Chaos {
+		qclass = dns.ClassCHAOS
+	}
+	if len(resp.Question) != 1 {
+		bs = append(bs, fmt.Sprintf("%d questions", len(resp.Question)))
+	} else if rq := resp.Question[0]; rq.Name != q.Name || rq.Qtype != q.Qtype || rq.Qclass != qclass {
+		bs = append(bs, fmt.Sprintf("question %s/%d/%d, of the request: %s/%d/%d", rq.Name, rq.Qtype, rq.Qclass, q.Name, q.Qtype, qclass))
+	}
+	if !resp.Response || resp.Opcode != dns.OpcodeQuery {
+		bs = append(bs, fmt.Sprintf("qr=%v opcode=%d", resp.Response, resp.Opcode))
+	}
+	if resp.RecursionDesired != !q.NoRD || resp.CheckingDisabled != q.CD {
+		bs = append(bs, fmt.Sprintf("rd=%v cd=%v, of the request: rd=%v cd=%v", resp.RecursionDesired, resp.CheckingDisabled, !q.NoRD, q.CD))
+	}
+	if len(bs) == 0 {
+		return ""
+	}
+
+	return "[" + strings.Join(bs, "; ") + "]"
+}
+
+// mixCase spells name with the letters at the set bits of mask in upper case
+// (DNS 0x20 encoding).
+func mixCase(name string, mask uint32) string {
+	b := []byte(strings.ToLower(name))
+	for i := range b {
+		if mask>>(uint(i)%32)&1 == 1 && b[i] >= 'a' && b[i] <= 'z' {
+			b[i] -= 'a' - 'A'
+		}
+	}
+
+	return string(b)
 }
 
 func clientIP(c int) netip.Addr {
@@ -214,6 +275,9 @@ type fixture struct {
 	riOwner map[*agd.RequestInfo]uint16
 	// hookN counts the hooks passed (the yields are a function of it).
 	hookN atomic.Uint64
+	// coldN counts the filter calls of a fixture that empties the caches of
+	// the production filters before every call.
+	coldN atomic.Uint64
 	// park: the request of client parkClient stops at hook parkStage (once)
 	// until resumeCh is closed; parkedCh is closed when it has stopped.
 	parkStage          string
@@ -339,7 +403,7 @@ func rewriteIP(profile int) netip.Addr {
 // objects (agd.RequestInfo, filter.Request, filter.Response) must be the data of
 // that very request.  The expectation is computed from the request table only.
 func (f *fixture) identity(ctx context.Context, stage string, profile int, msg *dns.Msg, remote netip.Addr, clientName string,
-	fr *filter.Request) {
+	fr *filter.Request, hasRespStage bool) {
 	var bad []string
 	defer func() {
 		if v := recover(); v != nil {
@@ -395,7 +459,7 @@ func (f *fixture) identity(ctx context.Context, stage string, profile int, msg *
 		}
 	}
 	ri := agd.MustRequestInfoFromContext(ctx)
-	if o, shared := f.claim(ri, q.ID, stage, !strings.HasPrefix(host, "cname.")); shared {
+	if o, shared := f.claim(ri, q.ID, stage, hasRespStage); shared {
 		bad = append(bad, fmt.Sprintf("request %+v uses the RequestInfo object that request %d, still in flight, uses", q, o))
 	}
 	chk("RequestInfo.RemoteIP", ri.RemoteIP, clientIP(q.Client))
@@ -433,6 +497,13 @@ func (f *fixture) identity(ctx context.Context, stage string, profile int, msg *
 }
 
 func newFixture(cache *dnssvc.CacheConfig, reqs map[uint16]sreq, logPath ...string) *fixture {
+	return newFixtureWith(cache, reqs, nil, false, logPath...)
+}
+
+// newFixtureWith is newFixture with the production filters of real (if not
+// nil) in place of the scripted ones; cold: their caches are emptied before
+// every call.
+func newFixtureWith(cache *dnssvc.CacheConfig, reqs map[uint16]sreq, real *realFilters, cold bool, logPath ...string) *fixture {
 	f := &fixture{reqs: reqs, parkClient: -2}
 	if len(logPath) > 0 {
 		f.logPath = logPath[0]
@@ -443,6 +514,9 @@ func newFixture(cache *dnssvc.CacheConfig, reqs map[uint16]sreq, logPath ...stri
 	for i := range profs {
 		conf := &filter.ConfigClient{Custom: &filter.ConfigCustom{}, Parental: &filter.ConfigParental{},
 			RuleList: &filter.ConfigRuleList{}, SafeBrowsing: &filter.ConfigSafeBrowsing{}}
+		if real != nil {
+			conf = real.confs[i]
+		}
 		confs[conf] = i
 		devs[i] = &agd.Device{Auth: &agd.AuthSettings{PasswordHash: agdpasswd.AllowAuthenticator{}},
 			ID: agd.DeviceID(fmt.Sprintf("dev%05d", i)), LinkedIP: clientIP(i), FilteringEnabled: true, Name: devName(i)}
@@ -471,7 +545,7 @@ func newFixture(cache *dnssvc.CacheConfig, reqs map[uint16]sreq, logPath ...stri
 		return &agdtest.Filter{
 			OnFilterRequest: func(ctx context.Context, req *filter.Request) (filter.Result, error) {
 				f.hook(f.reqs[req.DNS.Id].Client, "filter-request")
-				f.identity(ctx, "FilterRequest", profile, req.DNS, req.RemoteIP, req.ClientName, req)
+				f.identity(ctx, "FilterRequest", profile, req.DNS, req.RemoteIP, req.ClientName, req, !strings.HasPrefix(req.Host, "cname."))
 				switch {
 				case isBlockedFor(profile, req.Host):
 					return &filter.ResultBlocked{List: "verif_list", Rule: rule(req.Host)}, nil
@@ -497,9 +571,9 @@ func newFixture(cache *dnssvc.CacheConfig, reqs map[uint16]sreq, logPath ...stri
 			},
 			OnFilterResponse: func(ctx context.Context, resp *filter.Response) (filter.Result, error) {
 				f.hook(f.reqs[resp.DNS.Id].Client, "filter-response")
-				f.identity(ctx, "FilterResponse", profile, resp.DNS, resp.RemoteIP, resp.ClientName, nil)
-				if q := resp.DNS.Question[0]; strings.HasPrefix(q.Name, "rblock.") && profile%2 == 0 {
-					return &filter.ResultBlocked{List: "verif_resp_list", Rule: rule(q.Name)}, nil
+				f.identity(ctx, "FilterResponse", profile, resp.DNS, resp.RemoteIP, resp.ClientName, nil, true)
+				if q := resp.DNS.Question[0]; strings.HasPrefix(strings.ToLower(q.Name), "rblock.") && profile%2 == 0 {
+					return &filter.ResultBlocked{List: "verif_resp_list", Rule: rule(strings.ToLower(q.Name))}, nil
 				}
 
 				return nil, nil
@@ -511,12 +585,16 @@ func newFixture(cache *dnssvc.CacheConfig, reqs map[uint16]sreq, logPath ...stri
 		flts[i] = mkFilter(i)
 	}
 	fs := &agdtest.FilterStorage{
-		OnForConfig: func(_ context.Context, c filter.Config) filter.Interface {
-			if i, ok := confs[c]; ok {
-				return flts[i]
+		OnForConfig: func(ctx context.Context, c filter.Config) filter.Interface {
+			i, ok := confs[c]
+			if !ok {
+				i = nProfiles
+			}
+			if real != nil {
+				return &realFilter{f: f, rf: real, inner: real.strg.ForConfig(ctx, c), profile: i, cold: cold}
 			}
 
-			return flts[nProfiles]
+			return flts[i]
 		},
 		OnHasListID: func(filter.ID) bool { return true },
 	}
@@ -529,8 +607,12 @@ func newFixture(cache *dnssvc.CacheConfig, reqs map[uint16]sreq, logPath ...stri
 	msgs, err := dnsmsg.NewConstructor(&dnsmsg.ConstructorConfig{Cloner: cl, BlockingMode: &dnsmsg.BlockingModeNXDOMAIN{},
 		StructuredErrors: agdtest.NewSDEConfig(true), FilteredResponseTTL: 7 * time.Second, EDEEnabled: true})
 	hlib.Must(err)
+	var group *filter.ConfigGroup
+	if real != nil {
+		group = real.group
+	}
 	conf := &stack.Config{ProfileDB: pdb, FilterStorage: fs, Upstream: upstream(f), Cache: cache, Cloner: cl,
-		Servers: []*agd.Server{srv}, Messages: msgs,
+		Servers: []*agd.Server{srv}, Messages: msgs, GroupFilterConfig: group,
 		GeoData: func(_ string, ip netip.Addr) (*geoip.Location, error) {
 			f.hook(clientOfIP(ip), "geoip")
 
@@ -740,8 +822,8 @@ func render(q sreq, resp *dns.Msg) (got string) {
 	}()
 	got = canon(resp)
 	if resp != nil {
-		if resp.Id != q.ID || len(resp.Question) != 1 || !strings.EqualFold(resp.Question[0].Name, q.Name) {
-			got = "FOREIGN " + got
+		if bad := checkEcho(q, resp); bad != "" {
+			got = "FOREIGN " + bad + " " + got
 		}
 		if bad := checkECS(q, resp); bad != "" {
 			got = "FOREIGN-ECS " + bad + " " + got
@@ -759,9 +841,24 @@ func (f *fixture) serve(q sreq) (got string, err error) {
 		return "", err
 	}
 	got = render(q, resp)
-	f.cloner.Dispose(resp)
+	if p := f.dispose(resp); p != "" {
+		got = p + " " + got
+	}
 
 	return got, nil
+}
+
+// dispose releases resp as ServerBase does after writing it.  Releasing a
+// message must not panic, whatever other requests do.
+func (f *fixture) dispose(resp *dns.Msg) (panicked string) {
+	defer func() {
+		if v := recover(); v != nil {
+			panicked = fmt.Sprintf("PANIC-IN-DISPOSE %v", v)
+		}
+	}()
+	f.cloner.Dispose(resp)
+
+	return ""
 }
 
 func genStackReqs(rng *rand.Rand, nClients, perClient int) (streams [][]sreq) {
@@ -779,6 +876,12 @@ func genStackReqs(rng *rand.Rand, nClients, perClient int) (streams [][]sreq) {
 			if rng.IntN(10) == 0 {
 				q.Chaos, q.Qtype = true, dns.TypeTXT
 			}
+			// What a response echoes differs between the requests: the letter
+			// case of the name and the header bits.
+			if rng.IntN(3) == 0 {
+				q.Name = mixCase(q.Name, rng.Uint32())
+			}
+			q.NoRD, q.CD, q.AD = rng.IntN(4) == 0, rng.IntN(4) == 0, rng.IntN(4) == 0
 			s = append(s, q)
 		}
 		streams = append(streams, s)
@@ -1286,7 +1389,7 @@ func stackCampaign(o *hlib.Opts, r *hlib.Result) {
 		var canonCase []string
 		for _, s := range streams {
 			for _, q := range s {
-				canonCase = append(canonCase, fmt.Sprintf("%d/%s/%d/%v/%d", q.Client, q.Name, q.Qtype, q.Chaos, q.EDNS))
+				canonCase = append(canonCase, fmt.Sprintf("%d/%s/%d/%v/%d/%v%v%v", q.Client, q.Name, q.Qtype, q.Chaos, q.EDNS, q.NoRD, q.CD, q.AD))
 			}
 		}
 		r.Case(cname+"|"+strings.Join(canonCase, ","), nontrivial && nClients >= 2)
